@@ -247,3 +247,7 @@ func OnTick(n int, f func()) {
 func TimeBack(base time.Time, ageSec uint64) time.Time {
 	return base.Add(-time.Duration(ageSec) * time.Second)
 }
+
+// Settle lets background watchers of the real runtime act (database/sql rolls a
+// transaction back in a goroutine when its context ends); no-op in the engine.
+func Settle() { time.Sleep(50 * time.Millisecond) }
